@@ -125,12 +125,13 @@ PROPS['C01'] = dict(
          'from the tun device of a different instance. non-trivial iff the handshake completed, >=1 delivered packet needed '
          '>=2 fragments and >=1 fault decision hit. One case in six instead: real server + scripted conforming sender (<= 80 actions: pings, '
          'upstream packets <= 600 bytes fragment by fragment, re-deliveries, freezes) whose history contains seven consecutive packets lost '
-         'entirely (3-bit sequence number comes round) followed by a crafted two-fragment packet; oracle: every server tun write is a packet '
-         'the sender completed; non-trivial iff >= 1 such wrap happened. distinct = hash of the choice tape',
+         'entirely (3-bit sequence number comes round) followed by a crafted two-fragment packet, or a packet given up after its first fragment, '
+         'seven lost, then its Adler-32-equivalent partner under the same number; oracle: every server tun write is a packet '
+         'the sender completed or gave up; non-trivial iff >= 1 such wrap happened. distinct = hash of the choice tape',
     engine_text='rapidcheck over choice tapes; simnet hosting real iodined + real iodine clients; ASan+UBSan; crafted adversarial packets (zlib stream of another packet at the second fragment\'s offset inside an incompressible packet)',
     bounds='<= 3 clients, <= 30 offers, packets <= 6000+24 bytes, <= 40 virtual s of faults, delays <= 3 s',
     trusted_base=TB_SIM,
-    assumptions=AS_SIM + ['a mis-assembled packet passing zlib Adler-32 (2^-32) cannot be generated on purpose'],
+    assumptions=AS_SIM + ['for ordinary (not crafted) contents a mis-assembled packet is stopped by zlib\'s Adler-32 and shows as a loss, which C01 allows; mis-assembly is only visible through the crafted content classes'],
 )
 PROPS['C02'] = dict(
     bin='c02', sources=['props/c02.cc'] + SIMSRC2, unit_objs=UNIT, images=IMGS, engine='rc',
